@@ -150,6 +150,11 @@ func runE2E(c *run.Ctx, s *kit.Summary) {
 	runs := []e2eRun{
 		{name: "maxbody10_name_chunked", args: []string{"-max-body", "10", "-name", "e2e-a", "-chunked"}, path: "/b/1000", method: "POST", body: "payload", maxBody: 10, attack: "e2e-a", chunked: true, redirects: 10},
 		{name: "defaults_follow3", args: nil, path: "/r/3", method: "GET", maxBody: -1, redirects: 10},
+		{name: "default_limit_follows_10", args: nil, path: "/r/10", method: "GET", maxBody: -1, redirects: 10},
+		{name: "default_limit_stops_at_11", args: nil, path: "/r/11", method: "GET", maxBody: -1, redirects: 10},
+		{name: "redirects9_follows_9", args: []string{"-redirects", "9"}, path: "/r/9", method: "GET", maxBody: -1, redirects: 9},
+		{name: "redirects11_follows_11", args: []string{"-redirects", "11"}, path: "/r/11", method: "GET", maxBody: -1, redirects: 11},
+		{name: "redirects0_stops_at_1", args: []string{"-redirects", "0"}, path: "/r/1", method: "GET", maxBody: -1, redirects: 0},
 		{name: "redirects2_stop", args: []string{"-redirects", "2", "-name", "e2e-c"}, path: "/r/3", method: "GET", maxBody: -1, attack: "e2e-c", redirects: 2},
 		{name: "redirects3_follow", args: []string{"-redirects", "3"}, path: "/r/3", method: "GET", maxBody: -1, redirects: 3},
 		{name: "nofollow", args: []string{"-redirects", "-1", "-max-body", "-1"}, path: "/r/3", method: "GET", maxBody: -1, redirects: -1},
